@@ -61,9 +61,11 @@ def new_game(case):
     cls = classes()[case["game"]]
     fake = FakeRandom(*case.get("samp", [0, 0]))
     install_sampler(fake)
-    g = cls(**cfg_kwargs(case))
+    kw = cfg_kwargs(case)
+    g = cls(**kw)
     g._cv_fake = fake
     g._cv_peek = bool(case.get("peek"))
+    g._cv_kw = kw          # the very argument objects the game was built from
     return g
 
 
@@ -121,12 +123,22 @@ def apply_op(g, op):
         return kind, f"{type(e).__name__}: {str(e)[:100]}"
 
 
-def run_ops(case):
-    """execute case['ops'] on a fresh implementation object; returns the observation record"""
+def run_ops(case, shared_from=None):
+    """execute case['ops'] on a fresh implementation object; returns the observation record.
+    `shared_from`: an earlier game of the same case -- the new object is then built from the very deck and hands objects
+    that game was built from (a caller that keeps its deal and plays / replays it again)."""
     rec = {"steps": []}
     try:
         with core.time_limit(3.0):
-            g = new_game(case)
+            if shared_from is None:
+                g = new_game(case)
+            else:
+                cls = classes()[case["game"]]
+                fake = FakeRandom(*case.get("samp", [0, 0])); install_sampler(fake)
+                kw = cfg_kwargs(case)
+                kw["deck"] = shared_from._cv_kw["deck"]; kw["hands"] = shared_from._cv_kw["hands"]
+                g = cls(**kw)
+                g._cv_fake = fake; g._cv_peek = bool(case.get("peek")); g._cv_kw = kw
     except Exception as e:
         rec["ctor"] = {"err": type(e).__name__, "msg": str(e)[:100]}
         return rec, None
